@@ -181,12 +181,89 @@ def model_k(real_ops_done, exists):
     return k
 
 
+def size_limited_save(fmt, cfg, limit, states, work):
+    """A save on a file system that takes only `limit` bytes per file (a full disk, a quota, RLIMIT_FSIZE with
+    SIGXFSZ ignored): the operating system itself accepts part of a write and refuses the rest — a buffered
+    writer sees the error, a raw one only a short count.  Returns (did save_sensors raise, class of what a
+    fresh start loads, did the next save without the limit persist the state)."""
+    import resource
+    import signal
+    d = os.path.join(work, f"quota-{fmt}")
+    os.makedirs(d, exist_ok=True)
+    main = os.path.join(d, f"state.{fmt}")
+    for p in (main, main + ".bak", pu.tmp_name(main)):
+        pu.put(p, None)
+    if cfg == "good":
+        pu.put(main, pu.save_bytes(states["old"], work, fmt))
+    sensors = dict(states["new"])
+    pers = pu.persistence_for(sensors, main)
+    soft, hard = resource.getrlimit(resource.RLIMIT_FSIZE)
+    old_handler = signal.signal(signal.SIGXFSZ, signal.SIG_IGN)
+    raised = None
+    try:
+        resource.setrlimit(resource.RLIMIT_FSIZE, (limit, hard))
+        try:
+            pers.save_sensors()
+        except OSError as e:
+            raised = "OSError"
+        except Exception as e:  # noqa: BLE001
+            raised = type(e).__name__
+    finally:
+        resource.setrlimit(resource.RLIMIT_FSIZE, (soft, hard))
+        signal.signal(signal.SIGXFSZ, old_handler)
+    projs = {n: pu.project(dict(v), transient=True) for n, v in states.items()}
+    gw = pu.make_gateway("2.2", persistence_file=main)
+    try:
+        gw.tasks.persistence.safe_load_sensors()
+        loaded = pu.project(gw.sensors)
+        cls = next((n for n, p in projs.items() if p == loaded), "emptyNet" if loaded == "-" else "other")
+    except BaseException as e:  # noqa: BLE001
+        cls = "raised:" + type(e).__name__
+    pers.need_save = True
+    try:
+        pers.save_sensors()
+        e2, s2 = pu.fresh_load(main)
+        nxt = e2 is None and pu.project(s2) == projs["new"]
+    except Exception:  # noqa: BLE001
+        nxt = False
+    return raised, cls, nxt
+
+
+def size_limit_part(res, states, work, tier):
+    for fmt in pu.FORMATS:
+        full = len(pu.save_bytes(states["new"], work, fmt))
+        limits = [0, 1, 17, 100, full // 2, full - 1] if tier == "quick" else \
+            sorted(set([0, 1, 2, 17, 64, 100, 128, full // 4, full // 2, full - 17, full - 2, full - 1, full]))
+        for cfg in ("none", "good"):
+            for limit in limits:
+                raised, cls, nxt = size_limited_save(fmt, cfg, limit, states, work)
+                res.evaluations += 1
+                res.count(f"size-limit:{fmt}:{'raised' if raised else 'returned'}")
+                res.distinct.add(digest(["quota", fmt, cfg, limit]))
+                allowed = {"new"} | ({"old"} if cfg == "good" else {"emptyNet"})
+                rep = {"op": "size-limit", "fmt": fmt, "cfg": cfg, "limit": limit}
+                what = None
+                if cls not in allowed:
+                    what = f"a start-up load gives '{cls}', not the old or the new state"
+                elif raised is None and limit < full and cls != "new":
+                    what = f"save_sensors returned normally but a start-up load gives '{cls}'"
+                elif not nxt:
+                    what = "the next save (space available again) did not persist the current state"
+                if what:
+                    res.oracle_failures.append({
+                        "key": {"kind": "size-limit", "fmt": fmt, "cfg": cfg, "loaded": cls},
+                        "what": f"{fmt}, prior file {cfg}: the file system takes {limit} of the {full} bytes of the new "
+                                f"file (save_sensors {'raised ' + raised if raised else 'returned normally'}): {what}",
+                        "replay": rep})
+
+
 def run(tier, seed, driver):
     res = Result()
     rng = random.Random(seed * 7919 + 12)
     work = tempfile.mkdtemp(prefix="verif-c12-")
     try:
         _run(res, rng, tier, driver, work)
+        size_limit_part(res, build_states(random.Random(seed * 7919 + 12))[0], work, tier)
     finally:
         pu.rmtree(work)
     return res
@@ -467,6 +544,11 @@ def replay(payload):
     work = tempfile.mkdtemp(prefix="verif-c12-")
     try:
         states, script = build_states(rng)
+        if r.get("op") == "size-limit":
+            raised, cls, nxt = size_limited_save(r["fmt"], r["cfg"], r["limit"], states, work)
+            print(f"save_sensors raised: {raised}; a start-up loads: {cls}; the next save persisted the state: {nxt}")
+            allowed = {"new"} | ({"old"} if r["cfg"] == "good" else {"emptyNet"})
+            return 1 if cls not in allowed or (raised is None and cls != "new") or not nxt else 0
         states = family_states(states, r.get("family", "chain"))
         projs = {"old": pu.project(states["old"])}
         projs.update({n: pu.project(s) for n, s in states.items() if n != "old"})
